@@ -479,6 +479,18 @@ Error RACFGBuilder::on_instruction(InstNode* inst, InstControlFlow& cf, RAInstBu
       InstSameRegHint same_reg_hint = InstSameRegHint::kNone;
       if (single_reg_ops == operands.size()) {
         same_reg_hint = inst_info.same_reg_hint();
+
+        // The hint describes the bytes the instruction accesses. If it only writes a part of the virtual register
+        // (`xor al, al` of a 32-bit register) the rest is still live, so the register is not write-only; if the
+        // write zero-extends into bytes that are in use (`or eax, eax` of a 64-bit register) it is not read-only.
+        const OpRWInfo& op0_rw_info = rw_info.operand(0);
+        uint64_t reg_byte_mask = ib[0]->work_reg()->reg_byte_mask();
+        if (same_reg_hint == InstSameRegHint::kWO && (reg_byte_mask & ~(op0_rw_info.write_byte_mask() | op0_rw_info.extend_byte_mask()))) {
+          same_reg_hint = InstSameRegHint::kNone;
+        }
+        if (same_reg_hint == InstSameRegHint::kRO && op0_rw_info.is_write() && (reg_byte_mask & op0_rw_info.extend_byte_mask() & ~op0_rw_info.write_byte_mask())) {
+          same_reg_hint = InstSameRegHint::kNone;
+        }
       }
       else if (operands.size() == 2 && operands[1].is_imm()) {
         // Handle some tricks used by X86 asm.
